@@ -191,3 +191,17 @@ func Explore(cfg ExploreConfig, body func(), visit func(prefix []int, r *Result)
 	st.Exhaustive = !capped && st.EngineError == ""
 	return st
 }
+
+// Confirm re-executes the schedule of r n more times and requires the identical observation fingerprint
+// each time: a violation is only believed if the same schedule fails every time.
+func Confirm(cfg Config, r *Result, body func(), n int) error {
+	fp := r.Fingerprint()
+	seq := r.ChoiceSeq()
+	for i := 0; i < n; i++ {
+		r2 := Run(cfg, seq, body)
+		if r2.Fingerprint() != fp {
+			return fmt.Errorf("nondeterminism while confirming a violation: schedule %v gave %s then %s\nfirst: %v\nagain: %v", seq, fp, r2.Fingerprint(), r.Log, r2.Log)
+		}
+	}
+	return nil
+}
